@@ -113,7 +113,7 @@ func runC02(env *Env) {
 	u8 := oneFieldTpl(301, entities.Unsigned8, 4)
 	emit("tcp 5 0 full " + u8.tplSet(r) + " " + manyRecords(u8, 65515, 200))
 	env.Count("shape/max-records")
-	n := 300
+	n := 500
 	if env.Thorough() {
 		n = 20000
 	}
